@@ -19,7 +19,7 @@
 #include <time.h>
 
 enum { F_WRAPPED_ACQ, F_RESET_ACQ, F_UPTO_PARTIAL, F_FAIL_FRAGMENTED, F_FULL_AFTER_DRAIN, F_EXACT_FULL, F_TAIL_SPACE, F_OVERSIZE_REFUSED,
-       F_RELEASE_DURING_ACQUIRE, F_ACQUIRER_WAITED, F_RELEASER_WAITED, F_EMPTY_SEEN };
+       F_RELEASE_DURING_ACQUIRE, F_ACQUIRER_WAITED, F_RELEASER_WAITED, F_EMPTY_SEEN, F_UPTO_HUGE };
 
 static const size_t RING_SIZES[] = {1, 2, 3, 7, 16, 64, 100, 255, 4096};
 #define N_RING_SIZES (sizeof(RING_SIZES) / sizeof(RING_SIZES[0]))
@@ -86,9 +86,20 @@ static void seq_case(void) {
                 req = ring + 1 + (size_t)mon_below(r, 3);
                 oversize = true;
             }
+            bool huge = false;
+            if (mon_chance(r, 1, 12)) {
+                /* "whatever is left": requests far beyond the ring, up to SIZE_MAX (request + 1 wraps) */
+                static const size_t HUGE_REQ[] = {SIZE_MAX, SIZE_MAX - 1, SIZE_MAX / 2 + 1, SIZE_MAX / 2, (size_t)1 << 32};
+                req = mon_chance(r, 1, 2) ? SIZE_MAX : HUGE_REQ[mon_below(r, 5)];
+                huge = true;
+                oversize = !upto;
+            }
             size_t minimum = req;
             if (upto) {
-                minimum = 1 + (size_t)mon_below(r, req);
+                minimum = 1 + (size_t)mon_below(r, req < ring ? req : ring);
+                if (huge) {
+                    mon_flag(F_UPTO_HUGE);
+                }
             }
             mon_fp(upto ? 2 : 1);
             mon_fp(req);
@@ -101,7 +112,7 @@ static void seq_case(void) {
             if (rc == AWS_OP_SUCCESS) {
                 uint8_t *p = dest.buffer;
                 size_t cap = dest.capacity;
-                if (!p || p < rb.allocation || p + cap > rb.allocation_end || cap > ring) {
+                if (!p || cap > ring || p < rb.allocation || p + cap > rb.allocation_end) {
                     mon_violation("C15:seq:outside-ring", "ring=%zu: buffer [%td,+%zu) lies outside the ring storage", ring,
                                   p ? p - rb.allocation : -1, cap);
                     break;
@@ -325,6 +336,10 @@ static void conc_case(uint64_t case_idx) {
         bool upto = mon_chance(r, 1, 3);
         size_t req = pick_request(r, ring);
         size_t minimum = upto ? 1 + (size_t)mon_below(r, req) : req;
+        if (upto && mon_chance(r, 1, 10)) {
+            req = mon_chance(r, 1, 2) ? SIZE_MAX : SIZE_MAX / 2 + 1; /* "whatever is left" */
+            mon_flag(F_UPTO_HUGE);
+        }
         struct aws_byte_buf dest;
         uint64_t spins = 0;
         for (;;) {
@@ -379,7 +394,7 @@ static void conc_case(uint64_t case_idx) {
         }
         uint8_t *p = dest.buffer;
         size_t cap = dest.capacity;
-        if (!p || p < g.rb.allocation || p + cap > g.rb.allocation_end) {
+        if (!p || cap > ring || p < g.rb.allocation || p + cap > g.rb.allocation_end) {
             mon_violation("C15:conc:outside-ring", "ring=%zu: buffer [%td,+%zu) lies outside the ring storage", ring, p ? p - g.rb.allocation : -1, cap);
             gave_up = true;
             break;
@@ -478,7 +493,8 @@ int main(int argc, char **argv) {
     aws_common_library_init(aws_default_allocator());
     static const char *names[] = {"acquire_wrapped_to_start", "acquire_with_nothing_outstanding", "up_to_partial_grant", "failure_while_fragmented",
                                   "full_capacity_after_drain", "exact_full_ring_acquired", "space_before_tail_used", "oversize_refused",
-                                  "release_completed_during_acquire", "acquirer_waited_for_space", "releaser_waited_for_data", "ring_drained_mid_history"};
+                                  "release_completed_during_acquire", "acquirer_waited_for_space", "releaser_waited_for_data", "ring_drained_mid_history",
+                                  "up_to_request_far_beyond_ring_incl_SIZE_MAX"};
     for (int i = 0; i < (int)(sizeof(names) / sizeof(names[0])); ++i) {
         mon_flag_name(i, names[i]);
     }
